@@ -149,7 +149,7 @@ func (db *MultiBucketBackend) getBucketWithFilePrefixLocked(bucket string, prefi
 
 	// No key can start with a prefix whose directory part does not exist (or
 	// is a file); that is an empty listing, not a missing bucket:
-	if isDir, err := afero.IsDir(db.bucketFs, filepath.FromSlash(bucketPath)); err != nil && !os.IsNotExist(err) {
+	if isDir, err := afero.IsDir(db.bucketFs, filepath.FromSlash(bucketPath)); err != nil && !notExist(err) {
 		return nil, err
 	} else if !isDir {
 		return gofakes3.NewObjectList(), nil
@@ -367,7 +367,7 @@ func (db *MultiBucketBackend) HeadObject(bucketName, objectName string) (*gofake
 	fullPath := path.Join(bucketName, objectName)
 
 	stat, err := db.bucketFs.Stat(filepath.FromSlash(fullPath))
-	if os.IsNotExist(err) {
+	if notExist(err) {
 		return nil, gofakes3.KeyNotFound(objectName)
 	} else if err != nil {
 		return nil, err
@@ -409,7 +409,7 @@ func (db *MultiBucketBackend) GetObject(bucketName, objectName string, rangeRequ
 	fullPath := path.Join(bucketName, objectName)
 
 	f, err := db.bucketFs.Open(filepath.FromSlash(fullPath))
-	if os.IsNotExist(err) {
+	if notExist(err) {
 		return nil, gofakes3.KeyNotFound(objectName)
 	} else if err != nil {
 		return nil, err
@@ -598,7 +598,7 @@ func (db *MultiBucketBackend) deleteObjectLocked(bucketName, objectName string) 
 
 	// S3 does not report an error when attemping to delete a key that does not exist, so
 	// we need to skip IsNotExist errors.
-	if err := db.bucketFs.Remove(filepath.FromSlash(fullPath)); err != nil && !os.IsNotExist(err) {
+	if err := db.bucketFs.Remove(filepath.FromSlash(fullPath)); err != nil && !notExist(err) {
 		return err
 	}
 
